@@ -326,3 +326,53 @@ package mqtt
 //@   ensures[C06] result3 == nil ==> len(result2) <= 268435455
 //@   ensures[C06] alloc: maxAlloc() <= 268435455
 //@   ensures[C06] result3 == nil ==> result0&0x0F == 0
+
+// ---- SUBSCRIBE / UNSUBSCRIBE (MQTT 3.1.1 sections 3.8, 3.10) ----
+
+//@ spec
+//@ // payload for the first k subscriptions: (length-prefixed filter, requested QoS byte) in order
+//@ func specSubPayload(subs []Subscription, k int) seq {
+//@ 	if k <= 0 {
+//@ 		return seq0()
+//@ 	}
+//@ 	return cat3(specSubPayload(subs, k-1), specStr(subs[k-1].Topic), b1(byte(subs[k-1].QoS)))
+//@ }
+//@
+//@ func specSubscribe(id uint16, subs []Subscription) seq {
+//@ 	return specFixed(0x82, cat(u16be(id), specSubPayload(subs, len(subs))))
+//@ }
+//@
+//@ // payload for the first k filters of UNSUBSCRIBE
+//@ func specUnsubPayload(topics []string, k int) seq {
+//@ 	if k <= 0 {
+//@ 		return seq0()
+//@ 	}
+//@ 	return cat(specUnsubPayload(topics, k-1), specStr(topics[k-1]))
+//@ }
+//@
+//@ func specUnsubscribe(id uint16, topics []string) seq {
+//@ 	return specFixed(0xA2, cat(u16be(id), specUnsubPayload(topics, len(topics))))
+//@ }
+//@ end
+
+//@ func (*pktSubscribe).Pack
+//@   mode int
+//@   props C05
+//@   pure
+//@   freshresult
+//@   requires p != nil
+//@   requires forall(0, len(p.Subscriptions), func(i int) bool { return p.Subscriptions[i].QoS <= QoS2 && len(p.Subscriptions[i].Topic) <= 0xFFFF })
+//@   requires 2+slen(specSubPayload(p.Subscriptions, len(p.Subscriptions))) <= 0xFFFFFFF
+//@   loop 1 invariant seqEq(seqOf(payload), specSubPayload(p.Subscriptions, rangeindex+1))
+//@   ensures[C05] seqEq(seqOf(result), specSubscribe(p.ID, p.Subscriptions))
+
+//@ func (*pktUnsubscribe).Pack
+//@   mode int
+//@   props C05
+//@   pure
+//@   freshresult
+//@   requires p != nil
+//@   requires forall(0, len(p.Topics), func(i int) bool { return len(p.Topics[i]) <= 0xFFFF })
+//@   requires 2+slen(specUnsubPayload(p.Topics, len(p.Topics))) <= 0xFFFFFFF
+//@   loop 1 invariant seqEq(seqOf(payload), specUnsubPayload(p.Topics, rangeindex+1))
+//@   ensures[C05] seqEq(seqOf(result), specUnsubscribe(p.ID, p.Topics))
